@@ -457,6 +457,9 @@ func runHist(cfg *config) error {
 		if len(res.Samples) < 2 {
 			res.Samples = append(res.Samples, map[string]any{"history": h, "final": o.Final})
 		}
+		if lastRun != nil && lastRun.SnapshotHeld > 0 {
+			res.Dist["compactions.with-a-snapshot-in-flight"] += lastRun.SnapshotHeld
+		}
 		if lastRun != nil && lastRun.Compactions > 0 {
 			res.Dist["compactions.done"] += lastRun.Compactions
 		}
